@@ -347,10 +347,13 @@ def check(model, rep, tier):
               'from liveness, both built on what the activity analysis visits')
   rep.depends('C17', ['TREE-LITERAL'],
               'the variables in the generated get_state / set_state are built by QN.ast() from the qualified names of the state')
-  rep.depends('C03', ['GETSET', 'QN-SUPPORT'],
+  rep.depends('C03', ['GETSET', 'QN-SUPPORT', 'NOUTS', 'SEQ'],
               'a tracing backend touches variables only through get_state / '
               'set_state (and ldu for composites); composites enter the state '
-              'only when their whole support is live')
+              'only when their whole support is live; it keeps the first nouts '
+              'entries of a branch, so the outputs must be exactly the prefix '
+              'the count describes, and the names / getter / setter tuples must '
+              'list the same variables in the same order')
   rep.depends('C07', None,
               'the state of a block is selected from the LIVE_VARS_IN / _OUT '
               'annotations; variables read only by a closure stay in the outputs '
